@@ -289,8 +289,11 @@ def query_regions(q, forms=None) -> set:
     if forms:
         used = set(q.get("sel", [])) | _vars_in(q.get("conds", [])) | _vars_in(q.get("head", [])) | \
             _vars_in(q.get("rule", {}))
-        if sum(1 for v in used if forms.get(v) in ("kw", "nodom")) >= 2:
-            out.add("several_kwargs_form_variables")
+        n_nested = sum(1 for v in used if forms.get(v) in ("kw", "nodom"))
+        n_plain = sum(1 for v in used if forms.get(v) not in ("kw", "nodom", None) and not str(v).startswith("v"))
+        if n_nested >= 2 or (n_nested >= 1 and n_plain >= 1 and len(used) >= 2):
+            # a kwargs-form or registry-backed variable joined with other variables
+            out.add("kwargs_form_variable_in_multi_variable_query")
     return out
 
 
@@ -379,8 +382,8 @@ def gen_world_and_pool(rng, cfg, want_region=None, tries=60):
                     "disjunction_over_different_variables": [],
                     "disjunction_of_multi_variable_conjunction": [],
                     "rule_tree_with_alternative_or_next": [],
-                    "several_kwargs_form_variables": ["kw"]}[want_region]
-            if want_region == "several_kwargs_form_variables":
+                    "kwargs_form_variable_in_multi_variable_query": ["kw"]}[want_region]
+            if want_region == "kwargs_form_variable_in_multi_variable_query":
                 cfg["n_vars"] = max(cfg["n_vars"], 2)
                 cfg["kw_p"] = 0.8
             if want_region == "disjunction_of_multi_variable_conjunction":
